@@ -8,11 +8,12 @@ RULE = ("cases = record histories of 8..90 records over up to 6 processes: FORK 
         "threads and processes first seen through a sample, a COMM or an mmap, samples of the idle thread 0, exact same-thread same-timestamp repeats, group leaders that exit before their threads; "
         "written as perf.data (time-ordered, or physically shuffled inside FINISHED_ROUND rounds), converted by `samply import --save-only` with default options. Observed: per thread entry the pid/tid "
         "strings and the sample times and weights. Decided in Coq: the multiset of (pid, tid, time) of all output samples equals the accepted input samples (specification independent of the model), all "
-        "weights 1; conformance: every entry holds exactly the samples the model puts there. non-trivial = the history contains an EXIT or EXEC and at least two samples")
+        "weights 1; conformance: every entry holds exactly the samples the model puts there. Third stream: the same histories with CONTEXT_SWITCH records (in / out, of live, unknown and idle threads; attr.context_switch set): "
+        "every accepted input sample appears exactly once with weight 1 on its (pid, tid) (further samples would be allowed there), and the entries are the model's. non-trivial = the history contains an EXIT or EXEC and at least two samples")
 TRUSTED = ["vlib/perfdata.py (perf.data writer) and linux-perf-data's parsing and per-round sorting", "vlib/conv_e2e.py::view (reading out.json back)",
            "times are compared in integer nanoseconds after rounding the JSON's millisecond floats"]
 ASSUMPTIONS = ["the model covers default options; runs with --reuse-threads and / or --fold-recursive-prefix are decided by the model-free specification only (with --reuse-threads on the multiset of sample times, since samples may be merged into earlier entries)",
-               "recordings without context-switch records (the property's 'no other samples' clause)", "all record times are >= the SAMPLE_TIME origin"]
+               "'no other samples' is only demanded of recordings without context-switch records, as the property says; recordings with CONTEXT_SWITCH records but without sched_switch samples are modelled (they add no samples)", "all record times are >= the SAMPLE_TIME origin"]
 _state = {}
 
 
@@ -33,6 +34,14 @@ def gen(tier, rng, scale):
     for _ in range((60 if tier == "quick" else 1200) * scale):
         recs = E.gen_history(frng, grammar=frng.chance(1, 2))
         cases.append({"items": recs, "flags": frng.choice([["--reuse-threads"], ["--fold-recursive-prefix"], ["--reuse-threads", "--fold-recursive-prefix"]])})
+    # recordings that also carry CONTEXT_SWITCH records (attr.context_switch set): every recorded sample still appears exactly once, on its thread
+    srng = rng.fork("switches")
+    for _ in range((60 if tier == "quick" else 1200) * scale):
+        recs = E.gen_history(srng, grammar=srng.chance(1, 2), switches=True)
+        c = {"items": recs, "sw": True}
+        if srng.chance(1, 3):
+            c["shuffle"] = srng.next()
+        cases.append(c)
     return cases
 
 
@@ -45,12 +54,16 @@ def with_items(case, items):
 def evaluate(cases):
     if not cases:
         return []
-    plain = [(i, c) for i, c in enumerate(cases) if not c.get("flags")]
+    plain = [(i, c) for i, c in enumerate(cases) if not c.get("flags") and not c.get("sw")]
+    sw = [(i, c) for i, c in enumerate(cases) if c.get("sw")]
     flagged = [(i, c) for i, c in enumerate(cases) if c.get("flags")]
     out = [None] * len(cases)
     st = _state.setdefault("stats", {})
     if plain:
         for (i, _), v in zip(plain, E.evaluate(PROP, "verdict_c01", [c for _, c in plain], st)):
+            out[i] = v
+    if sw:
+        for (i, _), v in zip(sw, E.evaluate(PROP, "verdict_c01_sw", [c for _, c in sw], st.setdefault("with_context_switches", {}))):
             out[i] = v
     if flagged:
         fst = st.setdefault("with_flags", {})
